@@ -6,9 +6,9 @@ pub use vcore::fuzz::fuzz_main;
 use vcore::gen::Comp;
 use vcore::{FuzzTarget, FuzzVerdict};
 
-pub const FUZZ_JOBS: u32 = 8;
+pub const FUZZ_JOBS: u32 = 16;
 /// measured (ASan build, one core): ~1000 exec/s
-pub const KAD_WIRE_RUNS_PER_JOB: u64 = 200_000;
+pub const KAD_WIRE_RUNS_PER_JOB: u64 = 800_000;
 
 pub const KAD_WIRE: FuzzTarget = FuzzTarget {
     name: "kad_wire",
